@@ -4,6 +4,7 @@ import (
 	"fmt"
 	"go/ast"
 	"go/types"
+	"sort"
 	"strings"
 
 	"golang.org/x/tools/go/ssa"
@@ -165,18 +166,23 @@ func checkC15(p *Prog, r *Report) {
 				scopeFns = append(scopeFns, f)
 			}
 		}
-		nW := 0
-		for _, a := range LAccesses(p, scopeFns) {
-			if !a.Write || isInitFunc(a.Fn) {
-				continue
-			}
-			nW++
-			r.Fail(kp("STATE", "handler-writes-process-memory:"+a.Loc+"@"+FuncName(a.Fn)), "a failed transaction leaves nothing behind: handlers change state only through the transaction's store branch", p.Pos(a.Instr.Pos()),
-				fmt.Sprintf("%s is written on a handler's call tree (%s; reached via %s): the write is not part of the store branch that is discarded when a message of the transaction fails, so a failed transaction changes what later messages see and store", a.Loc, describeAccess(p, a), reach.Chain(a.Fn)))
+		// a location that handler code only writes (a metrics counter) cannot influence what handlers compute; one that it also
+		// reads carries the effect of a discarded transaction into the next one
+		channels, _ := hiddenStateChannels(p, scopeFns, scopeFns)
+		var locs []string
+		for l := range channels {
+			locs = append(locs, l)
+		}
+		sort.Strings(locs)
+		nW := len(locs)
+		for _, l := range locs {
+			a, rd := channels[l][0][0], channels[l][1][0]
+			r.Fail(kp("STATE", "handler-writes-process-memory:"+a.Loc), "a failed transaction leaves nothing behind: handlers change state only through the transaction's store branch", p.Pos(a.Instr.Pos()),
+				fmt.Sprintf("%s is written on a handler's call tree (%s; reached via %s) and read there (%s): the write is not part of the store branch that is discarded when a message of the transaction fails, so a failed transaction changes what later messages see and store", a.Loc, describeAccess(p, a), reach.Chain(a.Fn), describeAccess(p, rd)))
 		}
 		if nW == 0 {
 			r.OK(kp("STATE", "handler-writes-process-memory#none"), "a failed transaction leaves nothing behind: handlers change state only through the transaction's store branch", "x/*",
-				fmt.Sprintf("%d module functions on the handlers' call trees, no write to a package-level variable or long-lived field", len(scopeFns)))
+				fmt.Sprintf("%d module functions on the handlers' call trees, no package-level variable or long-lived field is both written and read there", len(scopeFns)))
 		}
 	}
 	if r.Tier == "thorough" {
